@@ -112,14 +112,27 @@ def solve_text(args):
 
     label = {'z3new': 'z3-5.1.0', 'api': 'z3-5.1.0', 'z3old': 'z3-4.8.12',
              'cvc5': 'cvc5-1.0.3'}
-    if light is not None:
-        # stage 1: without the unfoldings of recursive spec functions (fewer
-        # hypotheses: an unsat here is a proof); anything else is inconclusive
-        r, out, dt = run('z3new', light, 3)
-        res['tried'].append(('z3-5.1.0/light', r, round(dt, 3)))
-        if r == 'unsat':
-            res.update(status='unsat', backend='z3-5.1.0',
-                       time=time.time() - t_start)
+    for si, ltxt in enumerate(light or ()):
+        # early stages: the obligation with fewer instantiated definitions
+        # (no unfolding / only the goal's spec applications unfolded); fewer
+        # hypotheses, so an unsat here is a proof; anything else is
+        # inconclusive and the next stage decides
+        solvers = ['z3new']
+        if not has_sets(ltxt) and 'lambda' not in ltxt:
+            # sequence-update reasoning: cvc5 and z3 4.8 are the strong ones
+            solvers = ['cvc5', 'z3old', 'z3new'] if has_seq_update(ltxt) \
+                else ['z3new', 'cvc5']
+        done = False
+        for which in solvers:
+            r, out, dt = run(which, ltxt, min(budget, 8))
+            res['tried'].append(('%s/stage%d' % (label[which], si), r,
+                                 round(dt, 3)))
+            if r == 'unsat':
+                res.update(status='unsat', backend=label[which],
+                           time=time.time() - t_start)
+                done = True
+                break
+        if done:
             return res
     for backend in order:
         which = 'z3new' if backend == 'api' else backend
@@ -144,6 +157,90 @@ def solve_text(args):
 
 def has_sets(text):
     return '(Array Ty Bool)' in text
+
+
+_SYM = {}
+
+
+def symbols(f):
+    """names of the uninterpreted symbols (constants and functions) of f"""
+    k = f.get_id()
+    if k in _SYM:
+        return _SYM[k]
+    out = set()
+    seen = set()
+    stack = [f]
+    while stack:
+        t = stack.pop()
+        i = t.get_id()
+        if i in seen:
+            continue
+        seen.add(i)
+        if z3.is_quantifier(t):
+            stack.append(t.body())
+            continue
+        if z3.is_app(t):
+            if t.decl().kind() == z3.Z3_OP_UNINTERPRETED:
+                out.add(t.decl().name())
+            stack.extend(t.children())
+    _SYM[k] = out
+    return out
+
+
+_MS = {}
+
+
+def mentions_sets(f):
+    k = f.get_id()
+    if k in _MS:
+        return _MS[k]
+    r = False
+    seen = set()
+    stack = [f]
+    while stack:
+        t = stack.pop()
+        i = t.get_id()
+        if i in seen:
+            continue
+        seen.add(i)
+        if z3.is_quantifier(t):
+            r = True
+            break
+        if z3.is_app(t):
+            if t.sort().kind() == z3.Z3_ARRAY_SORT:
+                r = True
+                break
+            stack.extend(t.children())
+    _MS[k] = r
+    return r
+
+
+def slice_pc(pc, goal, n):
+    """the n path-condition conjuncts most related to the goal: greedy
+    selection by shared symbols, rare symbols weighing more"""
+    syms = [symbols(f) for f in pc]
+    freq = {}
+    for ss in syms:
+        for x in ss:
+            freq[x] = freq.get(x, 0) + 1
+    cur = set(symbols(goal))
+    chosen = []
+    rest = list(range(len(pc)))
+    while rest and len(chosen) < n:
+        best, bs = None, 0.0
+        for i in rest:
+            sc = sum(1.0 / freq[x] for x in syms[i] if x in cur)
+            if not syms[i]:
+                sc = 0.01       # ground facts are cheap: keep them
+            if sc > bs:
+                best, bs = i, sc
+        if best is None:
+            break
+        chosen.append(best)
+        rest.remove(best)
+        cur |= syms[best]
+    chosen.sort()
+    return [pc[i] for i in chosen]
 
 
 def ob_unfold(eng, ob):
@@ -183,8 +280,29 @@ def discharge(verifier, obligations, budget=10, jobs=None, workdir=None,
         text = to_smt2(fs + axioms)
         light = None
         if len(text) > 40000:
-            light = to_smt2(fs + verifier.axioms_for(fs, depth=0,
-                                                     exclude=exclude))
+            # goal-directed slices of the path condition (fewer hypotheses:
+            # an unsat of a slice is a proof of the obligation)
+            light = []
+            neg = z3.Not(ob.goal)
+            d = ob_unfold(eng, ob)
+            pc = list(ob.pc)
+            sl = slice_pc(pc, ob.goal, 14) + [neg]
+            af = lambda f, dd, pa: verifier.axioms_for(     # noqa
+                f, depth=dd, exclude=exclude, plug_all=pa)
+            g1 = af([neg], d, False)        # only the goal's applications
+            if not mentions_sets(ob.goal):
+                # hypotheses free of type sets: cvc5 / z3 4.8 territory
+                nos = [f for f in pc if not mentions_sets(f)]
+                s2 = slice_pc(nos, ob.goal, 16) + [neg]
+                light.append(to_smt2(s2 + af(s2, 0, False)))
+                light.append(to_smt2(nos + [neg] + af(nos + [neg], 0,
+                                                      False) + g1))
+            light.append(to_smt2(sl + af(sl, 0, False)))
+            light.append(to_smt2(fs + af(fs, 0, False)))
+            light.append(to_smt2(sl + af(sl, 0, False) + g1))
+            light.append(to_smt2(fs + af(fs, 0, False) + g1))
+            light.append(to_smt2(sl + af(sl, d, False)))
+            light.append(to_smt2(fs + af(fs, d, False)))
         names = set()
         for (kind, t) in ob.inputs.values():
             names.add(str(t))
